@@ -81,4 +81,4 @@ def post(res, cases, impl, model):
 def run(tier, seed):
     return run_simple("C12", tier, seed, gen, TRUSTED,
                       "all 49 subkey lengths × ids {0,1,2,255,256,2^32−1,2^32,2^63,2^64−1,random} × random keys/contexts, rejected lengths 0..15 and 65..80, classic and Kdf object API; pairwise distinctness (incl. prefix relation) of subkeys per batch; distinct by (op, implementation answer)",
-                      ["BLAKE2b collision resistance for the distinctness sub-claim"], post=post, also_builds=("simd",))
+                      ["BLAKE2b collision resistance for the distinctness sub-claim"], post=post, also_builds=("simd",), concurrent=True)
